@@ -558,3 +558,32 @@ Proof.
     + right. eexists. apply RRunlock; [reflexivity|discriminate].
     + left. split; reflexivity.
 Qed.
+
+(* ---------- notifications after the state ---------- *)
+Section NotifyP.
+  Variable S : Type.
+  Lemma notified_quiescent_gen (t : list (nev S)) : forall sp,
+    ends_notified S t = true ->
+    (fst sp = snd sp \/ existsb (fun e => negb (is_write S e)) t = true) ->
+    fst (nrun S t sp) = snd (nrun S t sp).
+  Proof.
+    induction t as [|e t IH]; intros sp E H; cbn [nrun fold_left].
+    - destruct H as [H|H]; [exact H|discriminate].
+    - destruct e as [f|]; cbn [ends_notified] in E.
+      + apply andb_true_iff in E. destruct E as [E1 E2]. apply (IH (nstep S sp (NWrite S f)) E2). right. exact E1.
+      + apply (IH (nstep S sp (NNotify S)) E). left. reflexivity.
+  Qed.
+
+  (* if the published value equals the state before a handler runs and every write of the handler is
+     followed by a later notification, then an eager consumer — one that reads the state at every
+     notification, however early it is scheduled — has published the final state when the handler ends *)
+  Lemma notified_quiescent t sp : fst sp = snd sp -> ends_notified S t = true ->
+    fst (nrun S t sp) = snd (nrun S t sp).
+  Proof. intros Q E. apply notified_quiescent_gen; [exact E|left; exact Q]. Qed.
+End NotifyP.
+
+(* a notification BEFORE the write it announces leaves a stale published value (C20-5 / C20-6 shape) *)
+Lemma notify_before_state_stale :
+  let t := [NNotify nat; NWrite nat (fun n => n + 1)%nat] in
+  ends_notified nat t = false /\ nrun nat t (0, 0)%nat = (1, 0)%nat.
+Proof. vm_compute. split; reflexivity. Qed.
